@@ -15,6 +15,13 @@ CLAIMED = {
          'also evaluated directly on the real result.',
          'Trusted: Lean kernel, propext/Classical.choice/Quot.sound, fracexec rewrite (floats->exact '
          'decimals), generators. Double rounding is outside the theorem.', 'DESIGN.md section 4 C11'),
+ 'C18': ('Lean 4 theorems (omega over all naturals for the season tests; field algebra for the partition) tied '
+         'exhaustively over all 12x12x12 (month,start,end) to Element.SurfFlux and solarcalcs by exact rational execution',
+         'Proof: the two season tests are the same predicate, equal to start<=month<=end for start<=end, and off season '
+         'the modelled outputs do not depend on vegetation parameters; the tie enumerates the whole finite domain of the '
+         'property on the real code (element fluxes, road albedo in the reflection model, vegetation heat).',
+         'Trusted: Lean kernel, standard axioms, fracexec rewrite. Road albedo inside solarcalcs is observed through mr '
+         'with non-reflecting walls.', 'DESIGN.md section 4 C18'),
 }
 NOT_YET = 'check not built yet in this session (work in progress; see DESIGN.md section 4)'
 
